@@ -240,6 +240,10 @@ func (u *Unit) zeroArray(st *State, elem types.Type, r Term) {
 		var ct Term
 		if z.S == "" {
 			ct = u.c.Fresh("zeroarr", inner)
+		} else if lf.Sort == SStr {
+			// a constant array over an uninterpreted constant is not portable SMT-LIB: state it pointwise
+			ct = u.c.Fresh("zeroarr", inner)
+			u.c.Raw(fmt.Sprintf("(assert (forall ((i Int)) (! (= (select %s i) %s) :pattern ((select %s i)))))", ct.S, z.S, ct.S))
 		} else {
 			ct = Term{fmt.Sprintf("((as const %s) %s)", inner, z.S), inner}
 		}
@@ -622,11 +626,13 @@ func (u *Unit) globalConst(g *ssa.Global, st *State) (Value, bool) {
 	elem := g.Type().(*types.Pointer).Elem()
 	if _, ok := elem.Underlying().(*types.Interface); ok && typeName(elem) == "error" {
 		if g.Pkg != nil && !isRepoPkg(g.Pkg.Pkg.Path()) || (len(g.Name()) > 3 && (g.Name()[:3] == "Err" || g.Name()[:3] == "err")) {
+			globalMu.Lock()
 			id, ok := u.eng.globalIDs[g]
 			if !ok {
 				id = int64(len(u.eng.globalIDs) + 1)
 				u.eng.globalIDs[g] = id
 			}
+			globalMu.Unlock()
 			tag := u.m.typeID(types.NewNamed(types.NewTypeName(token.NoPos, nil, "sentinelError", nil), types.NewStruct(nil, nil), nil))
 			return IfaceV{IntLit(tag), IntLit(id)}, true
 		}
